@@ -93,6 +93,14 @@ func leafTop(top string) bool {
 	return false
 }
 
+// nestHook is a top-level value whose MarshalJSONTo hands its content back to
+// the library with options of its own (a nested call at depth 0).
+type nestHook struct{ V any }
+
+func (h nestHook) MarshalJSONTo(enc *jsontext.Encoder) error {
+	return json.MarshalEncode(enc, h.V, json.Deterministic(true), json.FormatNilSliceAsNull(false))
+}
+
 func (c VCase) value(st *stats) any {
 	// top-level leaves: their completion is the only event that can trigger the flush
 	switch n := max(c.Val.Pad, 0); c.Top {
@@ -108,6 +116,13 @@ func (c VCase) value(st *stats) any {
 		return float64(n) + 0.5
 	case "str":
 		return strings.Repeat("s", n%200)
+	}
+	if c.Top == "hook" {
+		return nestHook{c.Val.rec(st, 1)}
+	}
+	if c.Top == "hookptr" {
+		v := c.Val.rec(st, 1)
+		return &nestHook{&v}
 	}
 	if c.Lean {
 		v := c.Val.lean(st, 1)
